@@ -3,6 +3,21 @@ from ..flow import resolver, peel, root_local, backward, operand_locals
 from ..facts import op_place
 
 
+SOLVE_INTERNAL_CALLEES = ("complete_proof", "decay_nogood_activities", "declare_infeasible", "declare_timeout",
+                          "get_decision_level", "make_next_decision", "no_conflict", "propagate",
+                          "resolve_conflict_with_nogood", "restart_during_search", "backtrack", "initialise",
+                          "solve_internal", "declare_solving", "declare_conflict", "declare_solution_found")
+
+
+def solve_internal(lib):
+    """the search loop with every helper spliced in that is not one of the functions it called on the
+    pinned tree (those are anchors of their own): splitting the loop body into private methods does
+    not change what the rules see"""
+    from ..inline import view
+    f = lib.method("ConstraintSatisfactionSolver", "solve_internal")
+    return view(lib, f, want=lambda g: g.file == f.file and g.kind != "Closure" and g.name not in SOLVE_INTERNAL_CALLEES)
+
+
 def _assumption_writes(lib, f, depth=0, memo=None):
     """[(block, sources)] of f: places where self.assumptions is overwritten — directly, or by a
     call to a function that overwrites it on every path.  `sources` is the set of parameters of f
